@@ -103,7 +103,12 @@ Inductive case :=
    returned a query; impl_max = the real maxNestingDepth (exported constant). eval = false: only
    the constant and the expected outcome by level arithmetic are checked (quick tier), true: the
    byte-level model parses the same bytes *)
-| CNest (seqql nots : bool) (n impl_max : N) (impl_ok evalm : bool).
+| CNest (seqql nots : bool) (n impl_max : N) (impl_ok evalm : bool)
+(* nesting regression, FLAT shapes: long queries (exclusion lists  f:a and not f:v0 and not f:v1 ..,
+   OR-chains of negated bracket groups, mixes) whose TOTAL number of NOTs / brackets exceeds the
+   limit while the deepest sub-expression is at level `level` (<= 4). leaves / negs = number of
+   leaves and of NOT + NAND nodes of the returned AST, exp_* = what the generator wrote *)
+| CFlat (seqql : bool) (level impl_max : N) (impl_ok : bool) (leaves exp_leaves negs exp_negs : N).
 
 Definition T := mkTok.
 
@@ -319,6 +324,7 @@ Definition case_agrees (c : case) : bool :=
   | CNest seqql nots n impl_max impl_ok evalm =>
       N.eqb impl_max (N.of_nat max_nesting_depth)
       && (if evalm then Bool.eqb (nest_model_ok seqql nots (N.to_nat n)) impl_ok else true)
+  | CFlat _ _ impl_max _ _ _ _ _ => N.eqb impl_max (N.of_nat max_nesting_depth)
   end.
 
 (* implementation output satisfies the property (independent of the model's parser) *)
@@ -378,6 +384,10 @@ Definition case_spec_ok (c : case) : bool :=
   | CNest _ _ n impl_max impl_ok _ =>
       (* n brackets / NOTs put the leaf at level n + 1: accepted iff n + 1 <= maxNestingDepth *)
       Bool.eqb impl_ok (N.leb (n + 1) impl_max)
+  | CFlat _ level impl_max impl_ok leaves exp_leaves negs exp_negs =>
+      (* C12_level_is_nesting: only the nesting counts, not the length; and the flat tree is complete *)
+      Bool.eqb impl_ok (N.leb level impl_max)
+      && (negb impl_ok || (N.eqb leaves exp_leaves && N.eqb negs exp_negs))
   end.
 
 Definition diff_indices (l : list case) : list nat := bad_indices (fun c => negb (case_agrees c)) l.
